@@ -937,7 +937,10 @@ double myatof(const char* s)
 		if (c == 'E' || c == 'e') break;
 		y1 = 10 * y1 + (c - '0');
 	}
-	y = double(y1) * pow(10.0, exp);
+	if (exp < -300) // 10^exp is subnormal or zero as a double: scale in two steps
+		y = double(y1) * pow(10.0, exp + 300) * 1e-300;
+	else
+		y = double(y1) * pow(10.0, exp);
 	return y * m;
 }
 
